@@ -360,6 +360,16 @@ func (c *roundCircuit) Define(api frontend.API) error {
 		proof.FinalPoly.Coeffs = cs
 	case "alpha":
 		ch.FriChallenges.FriAlpha = bump(ch.FriChallenges.FriAlpha)
+	case "pure":
+		// move the initial combination by exactly delta = (d,0) or (0,d): the last batch's reduced opening is shifted by
+		// delta*(x - point), which the combination divides by (x - point) again; nothing Merkle-committed changes, so only
+		// the first consistency equality can notice - and it must, in whichever limb the difference sits
+		nl := int(cd.FriParams.DegreeBits + cd.FriParams.Config.RateBits)
+		bits := p.ToBinary(ch.FriChallenges.FriQueryIndices[c.R].Limb, 64)[0:nl]
+		x := fc.VerifCalculateSubgroupX(bits, uint64(nl)).ToQuadraticExtension()
+		last := len(inst.Batches) - 1
+		delta := bump(gl.ZeroExtension())
+		pre[last] = glc.AddExtension(pre[last], glc.MulExtension(delta, glc.SubExtension(x, inst.Batches[last].Point)))
 	}
 	caps := []variables.FriMerkleCap{c.VD.ConstantSigmasCap, c.PWPI.Proof.WiresCap, c.PWPI.Proof.PlonkZsPartialProductsCap, c.PWPI.Proof.QuotientPolysCap}
 	nLog := cd.FriParams.DegreeBits + cd.FriParams.Config.RateBits
@@ -370,7 +380,7 @@ func (c *roundCircuit) Define(api frontend.API) error {
 func c13Round(req c13Req, resp *drv.Response, rng *rand.Rand) error {
 	for _, instName := range []string{"testdata", "random"} {
 		l := data.Load(data.ByName(instName), 2)
-		for _, what := range []string{"none", "reduced0", "reduced1", "beta0", "betalast", "final0", "alpha"} {
+		for _, what := range []string{"none", "pure", "reduced0", "reduced1", "beta0", "betalast", "final0", "alpha"} {
 			for _, limb := range []int{0, 1} {
 				for _, d := range []int64{1, int64(2 + rng.Intn(1000000))} {
 					if what == "none" && (limb == 1 || d != 1) {
